@@ -296,40 +296,43 @@ def r4_membership_flag(chk, prog):
     chk.require(n_writes >= 1 and mk >= 1, 'flag word writes %d, handler creations %d' % (n_writes, mk))
 
 
-class _Stop(Exception):
-    pass
-
-
 def r5_dispatch_table(chk, prog):
-    """each word is handled by exactly the member that defines its key - as if ONE handler owned all arguments: the
-    per-word part of Groups::evalArguments (the body of the loop over the command line) is evaluated abstractly
-    (Engine B) for two members and EVERY combination of what each of them holds for a long key (nothing / exactly
-    this key / one abbreviation match / several), with the members' lookups replaced by their contracts
-    (evalSingleArgument: handles the word when findArg() finds a match, 'unknown' otherwise, throws on an ambiguous
-    abbreviation - C05-R2/R5; findExactArg: exact match or null).  Expected (what a single handler does, C05): the
-    exact key wins wherever it is defined; otherwise one abbreviation match in total is used, none is an 'unknown
-    argument' exception, more than one is an exception."""
+    """evaluating through a group equals one handler owning all arguments - decided per word sequence: the loop over
+    the command line in Groups::evalArguments (helpers of Groups inlined) is evaluated abstractly (Engine B) for two
+    member handlers over scripted word sequences, with the members replaced by the contract of
+    Handler::evalSingleArgument (decided by C02/C05/C06 on the handler itself):
+      a value word is consumed by a member whose value list is open, otherwise 'unknown';
+      '!' is consumed and arms the inversion of that member's next identified argument;
+      a key word closes the value list of every member that is asked (processArg writes mpLastArg on every path,
+      R2), is handled by a member that has an exact / unique abbreviation match (result 'last' for a command
+      argument), throws for an ambiguous abbreviation, else 'unknown'.
+    Tables (expected = what a single handler does, C05 / C06 / Handler::iterateArguments):
+      T1 a long key over two members x {nothing, exact, one abbreviation, several}: the exact key wins wherever it is
+         defined, one abbreviation in total is used, none or several end in an exception;
+      T2 a key word ends the open value list of EVERY member: a free value behind a key whose argument takes no
+         further values is refused, whichever member owns the key and whichever member had the open list;
+      T3 result 'last' ends the evaluation: no later word is offered to any member;
+      T4 '!' inverts the next identified argument, whichever member owns it, and nothing stays armed."""
     from ..boolshape import Interp, NeedAtom, Unsupported, Throw
     import itertools
     f = prog.one('celma::prog_args::Groups', 'evalArguments', pred=lambda f: len(f.params) == 2)
     outer = [l for l in loops_in(f) if l.get('k') == 'ForStmt' and
              any(True for c in walk(l) if c.get('k') in CALL_KINDS and callee_is(c, 'Handler::evalSingleArgument'))]
     chk.require(len(outer) == 1, 'Groups::evalArguments: loop over the command line not found')
-    body = children(outer[0])[-1]
+    loop = outer[0]
     en = prog.enums.get('celma::prog_args::Handler::ArgResult')
     chk.require(en is not None, 'enum Handler::ArgResult not found')
     res_vals = {e['name']: e['val'] for e in en['enumerators']}
     et = [e for q, e in prog.enums.items() if q.endswith('ArgListElement::Type')]
     chk.require(et, 'enum ArgListElement::Type not found')
     type_vals = {e['name']: e['val'] for e in et[0]['enumerators']}
-    STATES = ('none', 'exact', 'abbrev', 'ambiguous')
     members = (100, 200)
-    n = 0
-    for combo in itertools.product(STATES, repeat=2):
-        if combo.count('exact') > 1:
-            continue                    # refused when the second one is defined (R3)
-        state = dict(zip(members, combo))
-        handled = []
+
+    def evaluate(words, knows, open0=(False, False), command=False):
+        """words: list of ('long', id) | ('short', id) | ('value',) | ('!',);  knows[m][id] = 'exact'|'abbrev'|'ambiguous'.
+        returns (outcome, events, final state)"""
+        st = {'open': dict(zip(members, open0)), 'inv': {m: False for m in members}}
+        events = []
 
         def member_in(it, expr):
             for x in walk(expr):
@@ -339,75 +342,169 @@ def r5_dispatch_table(chk, prog):
                         return v
             raise Unsupported('member handler not identifiable at line %s' % expr.get('l'))
 
+        cur = {'i': 0}
+
+        def word_at(it):
+            i = cur['i']
+            if not isinstance(i, int) or not 0 <= i < len(words):
+                raise Unsupported('the current word is read outside the command line (index %r)' % (i,))
+            return words[i]
+
         def cb_eval(it, call):
             m = member_in(it, children(call)[0])
-            st = state[m]
-            if st == 'none':
+            w = word_at(it)
+            if w[0] == 'value':
+                if st['open'][m]:
+                    events.append(('value', m))
+                    return res_vals['consumed']
                 return res_vals['unknown']
-            if st == 'ambiguous':
+            if w[0] == '!':
+                st['inv'][m] = True
+                events.append(('!', m))
+                return res_vals['consumed']
+            st['open'][m] = False
+            how = knows.get(m, {}).get(w[1])
+            if how is None:
+                return res_vals['unknown']
+            if how == 'ambiguous':
                 raise Throw('ambiguous')
-            handled.append((m, st))
-            return res_vals['consumed']
+            events.append(('key', w[1], m, how, st['inv'][m]))
+            st['inv'][m] = False
+            return res_vals['last'] if command else res_vals['consumed']
 
-        def cb_find(it, call):
-            m = member_in(it, children(call)[0])
-            if not mentions_field(children(call)[0], 'mArguments'):
-                return 0                # the sub-group container of the member holds nothing for this key
-            st = state[m]
-            if st == 'ambiguous':
-                raise Throw('ambiguous')
-            return 0 if st == 'none' else m + (1 if st == 'exact' else 2)
-
-        def cb_exact(it, call):
+        def lookup(it, call, exact_only):
             m = member_in(it, children(call)[0])
             if not mentions_field(children(call)[0], 'mArguments'):
                 return 0
-            return m + 1 if state[m] == 'exact' else 0
+            w = word_at(it)
+            how = knows.get(m, {}).get(w[1]) if w[0] in ('long', 'short') else None
+            if how == 'ambiguous' and not exact_only:
+                raise Throw('ambiguous')
+            if how == 'exact':
+                return m + 1
+            return m + 2 if (how == 'abbrev' and not exact_only) else 0
 
-        def cb_get(it, call):
-            return member_in(it, children(call)[0])
+        def cb_end_list(it, call):
+            st['open'][member_in(it, children(call)[0])] = False
+            return 0
+
+        def cb_store(it, lhs, v):
+            l0 = strip_all_casts(lhs)
+            if l0.get('k') == 'MemberExpr' and l0.get('ref', {}).get('name') == 'mInverted':
+                st['inv'][member_in(it, l0)] = bool(v)
+                return True
+            if l0.get('k') == 'MemberExpr' and l0.get('ref', {}).get('name') == 'mpLastArg' and not v:
+                st['open'][member_in(it, l0)] = False
+                return True
+            return False
 
         def cb_atom(it, key):
             if key.endswith('.mElementType'):
-                return type_vals['stringArg']
+                w = word_at(it)
+                return type_vals[{'long': 'stringArg', 'short': 'singleCharArg', 'value': 'value', '!': 'control'}[w[0]]]
             if key.endswith('.mArgString') or key.endswith('.mValue'):
                 return 7
             if key.endswith('.mArgChar'):
+                return ord('!') if word_at(it)[0] == '!' else ord('k')
+            if key.endswith('.mInverted'):
                 return 0
-            if key in ('usage_printed', 'this.mContinueAfterUsage'):
+            if key in ('usage_printed', 'this.mContinueAfterUsage', 'this.mEvaluating'):
                 return 0
             return None
 
-        cbs = {'evalSingleArgument': cb_eval, 'findArg': cb_find, 'findExactArg': cb_exact, 'get': cb_get,
-               'usagePrinted': lambda it, call: 0, '<range>': lambda it, rng: list(members), '<atom>': cb_atom,
-               'ArgumentKey': lambda it, call: 7, 'key': lambda it, call: 7}
-        it = Interp(f, {}, callbacks=cbs, prog=prog)      # helpers of Groups itself are inlined
+        def cb_inc(it, call):
+            tgt = children(call)[1] if call.get('k') == 'CXXOperatorCallExpr' else object_of(call)
+            name = strip_all_casts(tgt).get('ref', {}).get('name')
+            it.set_atom(name, it.atom(name, 'ord') + 1)
+            cur['i'] = it.atom(name, 'ord')
+            return 0
+        cbs = {'evalSingleArgument': cb_eval, 'findArg': lambda it, c: lookup(it, c, False),
+               'findExactArg': lambda it, c: lookup(it, c, True), 'get': lambda it, c: member_in(it, children(c)[0]),
+               'endValueList': cb_end_list, 'usagePrinted': lambda it, c: 0, 'ArgumentKey': lambda it, c: 7,
+               'key': lambda it, c: 7, 'begin': lambda it, c: 0, 'end': lambda it, c: len(words),
+               'operator++': cb_inc, '<range>': lambda it, rng: list(members), '<atom>': cb_atom, '<store>': cb_store,
+               '<loops>': True}
+        it = Interp(f, {}, callbacks=cbs, prog=prog)
+        # scalar locals of the function that are initialised with a literal in front of the loop (flags, counters)
+        for stmt in children(f.body):
+            if stmt is loop:
+                break
+            if stmt.get('k') == 'DeclStmt' and all(
+                    isinstance(d.get('init'), dict) and strip_all_casts(d['init']).get('k') in (
+                        'CXXBoolLiteralExpr', 'IntegerLiteral') for d in stmt.get('decls', [])):
+                it.stmt(stmt)
         try:
-            out = it.run(body)
+            out = it.run(loop)
         except (NeedAtom, Unsupported) as e:
-            raise AnalysisBroken('Groups::evalArguments: the per-word dispatch is not interpretable for %s: %s' % (
-                combo, getattr(e, 'key', e)))
-        got = ('throw',) if out[0] == 'throw' else (('handled',) + tuple(handled) if handled else ('nothing',))
-        exact = [m for m in members if state[m] == 'exact']
-        nabbr = sum({'abbrev': 1, 'ambiguous': 2}.get(state[m], 0) for m in members)
+            raise AnalysisBroken('Groups::evalArguments: the word loop is not interpretable for %s: %s' % (
+                words, getattr(e, 'key', e)))
+        return ('throw' if out[0] == 'throw' else 'done'), events, st
+
+    def mem(m):
+        return 'member %d' % (m // 100)
+    n = 0
+    # ---- T1
+    STATES = ('none', 'exact', 'abbrev', 'ambiguous')
+    for combo in itertools.product(STATES, repeat=2):
+        if combo.count('exact') > 1:
+            continue
+        knows = {m: ({1: s_} if s_ != 'none' else {}) for m, s_ in zip(members, combo)}
+        out, ev, _ = evaluate([('long', 1)], knows)
+        keys = [e for e in ev if e[0] == 'key']
+        got = ('throw',) if out == 'throw' else tuple((e[2], e[3]) for e in keys)
+        exact = [m for m, s_ in zip(members, combo) if s_ == 'exact']
+        nabbr = sum({'abbrev': 1, 'ambiguous': 2}.get(s_, 0) for s_ in combo)
         if exact:
-            want = ('handled', (exact[0], 'exact'))
+            want = ((exact[0], 'exact'),)
         elif nabbr == 1:
-            want = ('handled', ([m for m in members if state[m] == 'abbrev'][0], 'abbrev'))
+            want = (([m for m, s_ in zip(members, combo) if s_ == 'abbrev'][0], 'abbrev'),)
         else:
             want = ('throw',)
-        n += 1
 
         def show(o):
-            if o[0] == 'throw':
+            if o == ('throw',):
                 return 'an exception'
-            if o[0] == 'nothing':
-                return 'the word is silently dropped'
-            return ' and '.join('member %d handles it (%s match)' % (m // 100, 'exact' if k == 'exact' else
-                                                                    'abbreviation') for m, k in o[1:])
+            return ' and '.join('%s handles it (%s match)' % (mem(m), 'exact' if k == 'exact' else 'abbreviation')
+                                for m, k in o) or 'the word is silently dropped'
+        n += 1
         chk.check(got == want, 'R5', f.name, 'long key over two members [member 1: %s, member 2: %s]: %s' % (
-            combo[0], combo[1], show(want)), f.loc(outer[0]), 'Groups::evalArguments: %s' % show(got))
-    chk.require(n >= 12, 'dispatch combinations evaluated: %d' % n)
+            combo[0], combo[1], show(want)), f.loc(loop), 'Groups::evalArguments: %s' % show(got))
+    # ---- T2
+    for owner, kind, opened in itertools.product(members, ('long', 'short'), members):
+        knows = {owner: {1: 'exact'}}
+        out, ev, _ = evaluate([(kind, 1), ('value',)], knows, open0=tuple(m == opened for m in members))
+        taken = [e for e in ev if e[0] == 'value']
+        n += 1
+        chk.check(out == 'throw' and not taken, 'R5', f.name, 'a %s key of %s ends the open value list of %s: the free '
+                  'value behind it is refused (as by a single handler)' % (kind, mem(owner), mem(opened)), f.loc(loop),
+                  'Groups::evalArguments: the value is %s' % ('consumed by ' + mem(taken[0][1]) if taken else
+                                                              'neither consumed nor refused'))
+    # ---- T3
+    for owner in members:
+        other = [m for m in members if m != owner][0]
+        knows = {owner: {1: 'exact'}, other: {2: 'exact'}}
+        out, ev, _ = evaluate([('short', 1), ('short', 2)], knows, command=True)
+        later = [e for e in ev if e[0] == 'key' and e[1] == 2]
+        n += 1
+        chk.check(out == 'done' and not later and any(e[0] == 'key' and e[1] == 1 for e in ev), 'R5', f.name,
+                  "result 'last' of %s ends the evaluation: the rest of the line belongs to the command argument"
+                  % mem(owner), f.loc(loop), 'Groups::evalArguments: %s' % (
+                      'the following word is evaluated as well' if later else 'ends with an exception'
+                      if out == 'throw' else 'the command argument is not handled'))
+    # ---- T4
+    for owner, kind in itertools.product(members, ('short', 'long')):
+        knows = {owner: {1: 'exact'}}
+        out, ev, st = evaluate([('!',), (kind, 1)], knows)
+        keys = [e for e in ev if e[0] == 'key']
+        ok = out == 'done' and len(keys) == 1 and keys[0][2] == owner and keys[0][4] is True and \
+            not any(st['inv'].values())
+        n += 1
+        chk.check(ok, 'R5', f.name, "'!' inverts the next argument (%s key of %s) and nothing stays armed" % (
+            kind, mem(owner)), f.loc(loop), 'Groups::evalArguments: %s' % (
+                'an exception' if out == 'throw' else 'the argument is handled %s; inversion still armed in: %s' % (
+                    'inverted' if keys and keys[0][4] else 'NOT inverted',
+                    [mem(m) for m, v in st['inv'].items() if v] or 'no member')))
+    chk.require(n >= 25, 'dispatch combinations evaluated: %d' % n)
 
 
 def run(chk):
@@ -436,5 +533,5 @@ def run(chk):
     r3(chk, prog)
     chk.rule('R4', 'handlers created by Groups are marked as group members (hfInGroup is established and never cleared)', 3)
     r4_membership_flag(chk, prog)
-    chk.rule('R5', 'a long key is handled by the member a single handler would choose (exact key wins, abbreviation unique over all members)', 12)
+    chk.rule('R5', 'per-word agreement with a single handler: owner of a long key, keys end every open value list, \'last\' ends the evaluation, \'!\' inverts the next argument', 25)
     r5_dispatch_table(chk, prog)
